@@ -4,7 +4,7 @@ Property theorems only (helpers in OAP/Proofs/Metadata.lean and OAP/Model/Metada
 `lower` (strings.ToLower) is arbitrary in every statement.
 -/
 import OAP.Proofs.Metadata
-import OAP.Proofs.GenFuncs
+import OAP.Proofs.GenFuncsMd
 namespace OAP.C09
 open OAP OAP.Metadata
 
@@ -204,5 +204,9 @@ bit, same error, and no index out of range on any input -/
 theorem unmarshalStringLength_is_generated (data : Bytes) :
     Gen.Fn.protocol_unmarshalStringLength data = unmarshalStringLength data :=
   GenFuncs.unmarshalStringLength_gen data
+
+/-- both helpers were inside the translatable subset in this run -/
+theorem functions_translated :
+    "protocol..marshalString" ∈ Gen.Fn.translated ∧ "protocol..unmarshalStringLength" ∈ Gen.Fn.translated := by decide
 
 end OAP.C09
